@@ -227,5 +227,22 @@ def run_regress(mod, job, acct):
         acct.violation(sig, case, detail)
 
 
+def main_in_scratch():
+  """Runs main() with a temporary directory of its own as TMPDIR and removes it afterwards.
+
+  openhtf keeps every attachment in a NamedTemporaryFile that is only deleted by Attachment.__del__; worker processes that
+  end with live records (or are terminated) would leave thousands of small files in the system's temporary directory.
+  """
+  import shutil  # pylint: disable=g-import-not-at-top
+  import tempfile  # pylint: disable=g-import-not-at-top
+  scratch = tempfile.mkdtemp(prefix='vfrun-')
+  os.environ['TMPDIR'] = scratch
+  tempfile.tempdir = scratch
+  try:
+    return main()
+  finally:
+    shutil.rmtree(scratch, ignore_errors=True)
+
+
 if __name__ == '__main__':
-  sys.exit(main())
+  sys.exit(main_in_scratch())
